@@ -30,6 +30,7 @@ import (
 	"seehuhn.de/go/postscript"
 
 	"verif/mc"
+	"verif/model/eexecref"
 	"verif/model/pscmp"
 	"verif/model/psrun"
 )
@@ -304,9 +305,12 @@ func repetitionFamily(budget time.Duration) mc.Family {
 		"/g {{exit} loop} def g", "f pop", "{1 pop} exec", "true {1 pop} if", "false {1} {2} ifelse pop", "1 dict begin end",
 		"{ { { {exit} loop } exec } exec } exec", "v pop", "/w {v} def w pop", "{ {1 exit 2} loop pop } exec", "2 {{exit} loop} repeat",
 		"{{{{{{{{{{1}exec}exec}exec}exec}exec}exec}exec}exec}exec}exec pop",
+		// names are looked up when they are executed, every time: a body that
+		// redefines an operator it uses, and a shared body run before and after
+		"5 3 add pop /add {sub} def", "/bb {5 3 add pop} def bb /add {sub} def bb", "v f pop /f {pop 2} def",
 	}
 	counts := []int{19, 20, 21, 99, 100, 101, 102, 150, 400}
-	tail := " { { { {7} exec } exec } exec } exec f count"
+	tail := " { { { {7} exec } exec } exec } exec f 5 3 add count"
 	modes := []string{"repeat", "for", "calls"}
 	n := len(bodies) * len(counts) * len(modes)
 	return mc.Family{
@@ -428,6 +432,65 @@ func nestedForallFamily(budget time.Duration) mc.Family {
 	}
 }
 
+// stopInsideEexecFamily: `stop` ends the program — also when it is executed
+// inside an eexec-encrypted section and more text follows the section.
+func stopInsideEexecFamily(budget time.Duration) mc.Family {
+	bodies := []string{"stop", "{stop} exec", "1 {stop} repeat", "{ {stop} loop } exec", "true {stop} if", "/p {stop} def p", "0 1 3 {pop stop} for", "[1 2] {pop stop} forall", "exit", "1 (a) add"}
+	forms := []string{"hex", "binary"}
+	return mc.Family{
+		Name: "stop-inside-eexec", Items: len(bodies) * len(forms), Budget: budget,
+		Rule: fmt.Sprintf("%d bodies (stop directly, in a procedure, in every kind of loop, in a conditional; for contrast exit outside a loop and an error) inside an eexec section (hex, binary), followed by clear text `/c 3 def 42`: after stop the program has ended without error, nothing after the stop has run (c undefined, 42 not pushed, /after undefined); non-trivial = all", len(bodies)),
+		Body: func(c *mc.Ctx, item int) mc.Verdict {
+			body := bodies[item%len(bodies)]
+			binary := item/len(bodies) == 1
+			plain := []byte("/before 1 def " + body + " /after 2 def mark currentfile closefile\n")
+			enc := eexecref.New().Encrypt(nil, append([]byte{0, 0, 0, 0}, plain...))
+			prog := "/start 0 def currentfile eexec\n"
+			if binary {
+				prog += string(enc) + "\n"
+			} else {
+				prog += string(eexecref.Armour(enc, 0)) + "\n"
+			}
+			prog += strings.Repeat("0", 64) + "\ncleartomark /c 3 def 42\n"
+			intp := postscript.NewInterpreter()
+			err := intp.ExecuteString(prog)
+			c.Step()
+			what := fmt.Sprintf("`%s` inside a %s eexec section, followed by `/c 3 def 42`", body, forms[item/len(bodies)])
+			fail := func(detail string) mc.Verdict {
+				v := mc.Fail("C03:stop-inside-eexec", what+": "+detail)
+				v.Render = what
+				return v
+			}
+			_, hasC := intp.UserDict["c"]
+			_, hasAfter := intp.SystemDict["after"]
+			_, hasAfterU := intp.UserDict["after"]
+			_, hasBefore := intp.SystemDict["before"]
+			if !hasBefore {
+				return fail("the section did not run at all (/before undefined)")
+			}
+			switch {
+			case strings.Contains(body, "stop"):
+				if err != nil {
+					return fail("stop is not an error, got " + err.Error())
+				}
+				if hasC || hasAfter || hasAfterU || len(intp.Stack) != 0 {
+					return fail(fmt.Sprintf("the program went on after stop: c defined=%v, after defined=%v, operand stack [%s]", hasC, hasAfter || hasAfterU, pscmp.ShowStack(intp.Stack)))
+				}
+			default:
+				if err == nil {
+					return fail("expected an error")
+				}
+				if hasC {
+					return fail("the program went on after the error")
+				}
+			}
+			return mc.Pass("ended-at-stop", true)
+		},
+		Describe: func(item int) string { return bodies[item%len(bodies)] },
+		CrashKey: func(item int) string { return "C03:crash:stop-inside-eexec" },
+	}
+}
+
 func dictstackFamily(budget time.Duration) mc.Family {
 	var progs []string
 	probes := []string{"q", "/q load", "/q where {/q get} {-1} ifelse", "currentdict /q known", "/q where {pop 1} {0} ifelse count"}
@@ -533,6 +596,7 @@ func main() {
 				loopOperandsFamily(budget),
 				repetitionFamily(budget),
 				nestedForallFamily(budget),
+				stopInsideEexecFamily(budget),
 			}
 		},
 	})
